@@ -311,3 +311,48 @@ func VerifH_C07_v3_after_upgrade() { verif.RunTimed(func() { c07v3AfterUpgrade(f
 // the same on the repository's own utils/timer.go (runtime-timer model) instead of the
 // contract-level timer model: the heartbeat depends on Refresh re-arming a cleared timer
 func VerifH_C07_v3_after_upgrade_real_timers() { verif.RunTimed(func() { c07v3AfterUpgrade(true) }) }
+
+// VerifH_C07_v4_after_mixed_upgrade: a revision-4 session upgrades to a transport whose own
+// request carried EIO=3 or no EIO at all (a client may do that); the heartbeat keeps following
+// the SESSION's revision: server ping one interval after the open, and a silent peer is closed
+// exactly one timeout after that ping (not interval+timeout).
+func VerifH_C07_v4_after_mixed_upgrade() {
+	verif.RunTimed(func() {
+		I, T := verif.Int64(), verif.Int64()
+		verif.Assume(I >= 2 && I <= 1<<40 && T >= 1 && T <= 1<<40)
+		sockWorldOpts = func(o *config.ServerOptions) {
+			o.SetPingInterval(time.Duration(I))
+			o.SetPingTimeout(time.Duration(T))
+			o.SetUpgradeTimeout(time.Duration(I))
+		}
+		sw := newSockWorld(transports.POLLING, "4")
+		sockWorldOpts = nil
+		rec := &evRec{}
+		rec.listen(sw.sock, "close", "upgrade")
+		ctx, _ := newCtx("GET", "/engine.io/")
+		ctx.Query().Set("transport", transports.WEBSOCKET)
+		if verif.Bool() {
+			ctx.Query().Set("EIO", "3")
+		}
+		ctx.Query().Set("sid", sw.sock.Id())
+		cand := newFakeTransport(transports.WEBSOCKET, ctx)
+		cand.onSend = asyncComplete
+		sw.sock.MaybeUpgrade(cand)
+		cand.OnPacket(probePing())
+		verif.Settle()
+		cand.OnPacket(&packet.Packet{Type: packet.UPGRADE, Data: types.NewStringBufferString("")})
+		verif.Settle()
+		verif.Assert(rec.count("upgrade") == 1, "upgraded")
+		n := len(cand.flat())
+		verif.SleepUntil(I)
+		verif.Settle()
+		pk := cand.flat()
+		verif.Assert(len(pk) == n+1 && pk[n].Type == packet.PING, "the server pings one interval after the open, on the new transport")
+		verif.SleepUntil(I + T - 1)
+		verif.Settle()
+		verif.Assert(rec.count("close") == 0, "not closed before ping + timeout")
+		verif.SleepUntil(I + T)
+		verif.Settle()
+		verif.Assert(rec.count("close") == 1, "a silent peer is closed exactly one ping timeout after the ping, whatever EIO value the upgraded transport's request carried")
+	})
+}
